@@ -84,6 +84,26 @@ fn make_pki(alg: &'static rcgen::SignatureAlgorithm) -> Pki {
         w(&format!("srv-{tag}.pem"), &c);
         w(&format!("srv-{tag}.key"), &k);
     }
+    // chains with an intermediate CA: the certificate file holds leaf + intermediate, the verifying side trusts only the root
+    {
+        let mk_inter = |name: &str, rp: &CertificateParams, rk: &KeyPair| {
+            let mut p = CertificateParams::new(Vec::<String>::new()).expect("params");
+            p.distinguished_name.push(DnType::CommonName, name);
+            p.is_ca = IsCa::Ca(BasicConstraints::Unconstrained);
+            p.key_usages = vec![KeyUsagePurpose::KeyCertSign, KeyUsagePurpose::CrlSign, KeyUsagePurpose::DigitalSignature];
+            let k = KeyPair::generate_for(alg).expect("key");
+            let pem = p.signed_by(&k, &Issuer::from_params(rp, rk)).expect("intermediate").pem();
+            (p, k, pem)
+        };
+        let (i1p, i1k, i1pem) = mk_inter("verif intermediate under CA1", &ca1p, &ca1k);
+        let (c, k) = leaf("localhost", names.clone(), Some((&i1p, &i1k)), false, alg);
+        w("srv-chain.pem", &format!("{c}{i1pem}"));
+        w("srv-chain.key", &k);
+        let (ixp, ixk, ixpem) = mk_inter("verif intermediate under CAX", &caxp, &caxk);
+        let (c, k) = leaf("verif client (chain)", vec![], Some((&ixp, &ixk)), true, alg);
+        w("cli-chain.pem", &format!("{c}{ixpem}"));
+        w("cli-chain.key", &k);
+    }
     w("empty.pem", "");
     w("comments.pem", "# no certificate in here\n\n");
     for (tag, issuer) in [("trusted", (&caxp, &caxk)), ("other", (&ca2p, &ca2k))] {
@@ -270,6 +290,38 @@ async fn plaintext_after_failed_handshake(st: &mut Stats, pki: &Pki) {
             st.nontrivial(mix(u64::from(client_ca), first.len() as u64 + 0x17));
         }
     }
+}
+
+/// Certificate files that hold a chain (leaf first, then the intermediate CA): what is presented is the configured chain, so a peer
+/// that trusts only the root validates it - for the server's certificate and for the client's.
+async fn chain_probes(st: &mut Stats, pki: &Pki) {
+    // server presents leaf + intermediate, client trusts the root only
+    if let Ok(identity) = make_tls_identity(&pki.p("srv-chain.pem"), &pki.p("srv-chain.key"), None).await {
+        let addr = start(identity).await;
+        st.evaluations += 1;
+        st.target("chain_with_intermediate_probes", 1);
+        match reaches(addr, "localhost", None, None, Some(&pki.p("ca1.pem")), false).await {
+            Ok(true) => {}
+            Ok(false) => st.violation(Violation { signature: "chain-with-intermediate|server-chain-rejected".into(), detail: "the server's certificate file holds its leaf and the intermediate CA that issued it; a client that trusts the root (and only the root) could not validate the server: the configured chain is not what is presented".into(), replay: json!({"kind": "c17-chain", "side": "server"}) }),
+            Err(e) => st.inconclusive.push(format!("c17 chain probe: {e}")),
+        }
+        // negative control: a client trusting another root must still refuse
+        if let Ok(true) = reaches(addr, "localhost", None, None, Some(&pki.p("ca2.pem")), false).await {
+            st.violation(Violation { signature: "chain-with-intermediate|accepted-under-other-root".into(), detail: "a client trusting only another root reached the server".into(), replay: json!({"kind": "c17-chain", "side": "server-negative"}) });
+        }
+    }
+    // client presents leaf + intermediate, server's client CA is the root only
+    if let Ok(identity) = make_tls_identity(&pki.p("srv-trusted.pem"), &pki.p("srv-trusted.key"), Some(&pki.p("cax.pem"))).await {
+        let addr = start(identity).await;
+        st.evaluations += 1;
+        st.target("chain_with_intermediate_probes", 1);
+        match reaches(addr, "localhost", Some(&pki.p("cli-chain.pem")), Some(&pki.p("cli-chain.key")), Some(&pki.p("ca1.pem")), false).await {
+            Ok(true) => {}
+            Ok(false) => st.violation(Violation { signature: "chain-with-intermediate|client-chain-rejected".into(), detail: "the client's certificate file holds its leaf and the intermediate CA under the server's client CA; the server refused it although the certificate is issued under that CA".into(), replay: json!({"kind": "c17-chain", "side": "client"}) }),
+            Err(e) => st.inconclusive.push(format!("c17 chain probe: {e}")),
+        }
+    }
+    st.nontrivial(0xC4A1);
 }
 
 async fn reload(st: &mut Stats, pki: &Pki, cycles: usize) {
@@ -741,6 +793,7 @@ pub fn run(p: &Params) -> (Stats, &'static str) {
         rt.block_on(reload(&mut st, &pki, if p.tier_thorough { 6 } else { 2 }));
         rt.block_on(empty_bundle_probes(&mut st, &pki));
         rt.block_on(plaintext_after_failed_handshake(&mut st, &pki));
+        rt.block_on(chain_probes(&mut st, &pki));
         rt.block_on(client_name_matrix(&mut st, &pki));
         rt.block_on(resumption_across_reload(&mut st, &pki));
         for client_ca in [true, false] {
